@@ -10,7 +10,6 @@ import (
 	"time"
 
 	"github.com/btcsuite/btcd/database/ffldb"
-	"github.com/btcsuite/btcd/database/veriftreap"
 
 	"verifharness/core"
 )
@@ -23,8 +22,13 @@ func (P) ID() string { return "C05" }
 
 func (P) Facts() []core.Fact {
 	var fs []core.Fact
+	// only persisted-format values are facts; tuning constants (handle limit, cache
+	// size, flush interval, file size limit, memory estimates) are not
 	for k, v := range ffldb.VerifConstsC05() {
-		fs = append(fs, core.Fact{Name: k, Value: v})
+		switch k {
+		case "blockLocSize", "metadataBucketID", "blockIdxBucketID":
+			fs = append(fs, core.Fact{Name: k, Value: v})
+		}
 	}
 	bytesOf := func(b []byte) []int64 {
 		r := make([]int64, len(b))
@@ -36,10 +40,7 @@ func (P) Facts() []core.Fact {
 	for k, v := range ffldb.VerifNamesC05() {
 		fs = append(fs, core.Fact{Name: k, Value: bytesOf([]byte(v))})
 	}
-	m := veriftreap.NewMutable()
-	m.Put([]byte{}, []byte{})
 	fs = append(fs,
-		core.Fact{Name: "treapNodeOverhead", Value: int64(m.Size())},
 		core.Fact{Name: "writeRowZero", Value: bytesOf(ffldb.VerifSerializeWriteRow(0, 0))},
 		core.Fact{Name: "writeRowSample", Value: bytesOf(ffldb.VerifSerializeWriteRow(3, 82))},
 		core.Fact{Name: "blockLocSample", Value: bytesOf(ffldb.VerifSerializeBlockLoc(1, 258, 65536+7))},
@@ -67,6 +68,8 @@ func (P) exec(line string) string {
 		return execTreap(f[2], f[3:])
 	case "db":
 		return execDb(f[2:])
+	case "dbf":
+		return execDbf(f[2:])
 	case "par":
 		return execPar(f[2:])
 	case "race":
@@ -124,7 +127,7 @@ func (P) Generate(g *core.Gen) {
 	if g.Thorough() {
 		g.Case("race-detector", true, "C05 racebuild 6")
 	}
-	emit := func(class, line string) { g.Case(class, true, line) }
+	emit := func(class, line string) { g.Case(class, true, toAdm(line)) }
 	start := g.R.Intn(len(faultKinds))
 	for i := g.N(5, 40); i > 0; i-- {
 		genFaultFamily(g.R, faultKinds[(start+i)%len(faultKinds)], emit)
